@@ -23,6 +23,7 @@
 (*                            time the bytes moved: later than gt when      *)
 (*                            receive_file had to wait for data);           *)
 (*                            b, a = bucket / age afterwards                *)
+(*   reinit: t                Network.initialize() was called (again)           *)
 (*   cancel: c t              the task inside take_tokens() of c was cancelled  *)
 (*   set   : t k b a          set_*_speed_limit(k); b, a of the new object  *)
 (*   end   : t w k            end of the run; w = longest time a still      *)
@@ -127,7 +128,7 @@ PSet ==
   /\ KeepUsed
 
 PSkip ==
-  /\ ~Exact /\ (IsEv("req") \/ IsEv("sleep") \/ IsEv("cancel")) /\ AtTime
+  /\ ~Exact /\ (IsEv("req") \/ IsEv("sleep") \/ IsEv("cancel") \/ IsEv("reinit")) /\ AtTime
   /\ UNCHANGED <<vars, now, expect>>
   /\ Consume
   /\ KeepUsed
@@ -184,6 +185,14 @@ XCancel ==
   /\ UNCHANGED <<now, expect>> /\ Consume
   /\ KeepUsed
 
+\* Network.initialize() was called again: nothing the property talks about changes
+XReinit ==
+  /\ Exact /\ IsEv("reinit") /\ AtTime /\ expect = NoExpect
+  /\ last' = [ev |-> "reinit", c |-> 0, n |-> 0, g |-> CurIdx]
+  /\ UNCHANGED <<gens, pc, on, rem, queue, since, bypass, acct, changes, cancels, stuck>>
+  /\ UNCHANGED <<now, expect>> /\ Consume
+  /\ KeepUsed
+
 XSet ==
   /\ Exact /\ IsEv("set") /\ AtTime /\ expect = NoExpect
   /\ Rec.k >= 0
@@ -201,7 +210,7 @@ Done ==
 
 Finished == l = Len(T) + 2 /\ UNCHANGED tvars
 
-TNext == TTick \/ PGrant \/ PSet \/ PSkip \/ TEnd \/ XReq \/ XFirst \/ XPoll \/ XCancel \/ XSet \/ Done \/ Finished
+TNext == TTick \/ PGrant \/ PSet \/ PSkip \/ TEnd \/ XReq \/ XFirst \/ XPoll \/ XCancel \/ XReinit \/ XSet \/ Done \/ Finished
 
 TSpec == TInit /\ [][TNext]_tvars
 
